@@ -129,9 +129,11 @@ func (u *Unit) mathOp(s *State, key string, args []Value) (Value, bool) {
 	case FloatBits:
 		switch key {
 		case "math.Float64bits":
-			return Value{T: App("bv2nat", "Int", at(0)), Ty: types.Typ[types.Uint64]}, true
+			x := at(0)
+			s.assume(And(Le(IntLit(0), x), Lt(x, pow2(64))))
+			return Value{T: Leaf(x.String(), "Int"), Ty: types.Typ[types.Uint64]}, true
 		case "math.Float64frombits":
-			return Value{T: App("(_ int2bv 64)", "Float", at(0)), Ty: F}, true
+			return Value{T: Leaf(at(0).String(), "Float"), Ty: F}, true
 		}
 	}
 	switch key {
